@@ -9,6 +9,7 @@ import (
 	"strings"
 
 	ad "github.com/pbenner/autodiff"
+	"github.com/pbenner/autodiff/algorithm/backSubstitution"
 	"github.com/pbenner/autodiff/algorithm/cholesky"
 	"github.com/pbenner/autodiff/algorithm/determinant"
 	"github.com/pbenner/autodiff/algorithm/gaussJordan"
@@ -281,6 +282,9 @@ func call(cs *Case, elem string, act activation) callResult {
 			if has(cs.Opt, "LDL") {
 				args = append(args, cholesky.LDL{Value: true})
 			}
+			if has(cs.Opt, "ForcePD") {
+				args = append(args, cholesky.ForcePD{Value: true})
+			}
 			if has(cs.Opt, "insitu") {
 				is := &cholesky.InSitu{L: staleMatrix(t, n, sN, sO), S: stale(ad.NewScalar(t, 0), 7.25, sN, sO, 1), T: stale(ad.NewScalar(t, 0), -3.5, sN, sO, 2)}
 				if has(cs.Opt, "LDL") {
@@ -300,6 +304,16 @@ func call(cs *Case, elem string, act activation) callResult {
 				o = append(o, matOut(D)...)
 			}
 			return o, nil
+		case "backSubstitution":
+			var args []interface{}
+			if has(cs.Opt, "insitu") {
+				args = append(args, &backSubstitution.InSitu{A: staleMatrix(t, n, sN, sO), X: staleVector(t, n, sN, sO), T: stale(ad.NewScalar(t, 0), 7.25, sN, sO, 1)})
+			}
+			x, err := backSubstitution.Run(A, v, args...)
+			if err != nil {
+				return nil, err
+			}
+			return vecOut(x), nil
 		case "hessenberg":
 			h, uu, err := hessenbergReduction.Run(A, hessenbergReduction.ComputeU{Value: true})
 			if err != nil {
